@@ -336,17 +336,25 @@ def g_mismatch(draw):
     r = gen.rng(draw)
     a = gen.fractional_stats(draw, C, F, r.normal(0, 1, (C, F)), np.ones((C, F)), r=r)
     b = gen.fractional_stats(draw, C2, F2, r.normal(0, 1, (C2, F2)), np.ones((C2, F2)), r=r)
-    return {"a": a, "b": b, "inplace": gen.boolean(draw)}
+    # a fresh, still empty container on one side (how every accumulation starts) is a frequent operand
+    return {"a": a, "b": b, "inplace": gen.boolean(draw), "empty": gen.choice(draw, [None, None, "a", "b", "both"])}
 
 
 @REG.obligation("shape_refused", g_mismatch, quick=150, thorough=2000)
 def c_mismatch(ctx, case):
     """Adding statistics of incompatible shapes raises ValueError and changes neither operand;
     compatible shapes add field by field."""
+    from bob.learn.em import GMMStats
+
     a, b = sut.make_stats(case["a"]), sut.make_stats(case["b"])
+    if case.get("empty") in ("a", "both"):
+        a = GMMStats(a.n_gaussians, a.n_features)
+    if case.get("empty") in ("b", "both"):
+        b = GMMStats(b.n_gaussians, b.n_features)
     sa, sb = copy.deepcopy(a), copy.deepcopy(b)
     same = (a.n_gaussians, a.n_features) == (b.n_gaussians, b.n_features)
-    ctx.note(not same, "mismatch" if not same else "compatible", "+=" if case["inplace"] else "+")
+    ctx.note(not same, "mismatch" if not same else "compatible", "+=" if case["inplace"] else "+",
+             "empty-operand:%s" % case.get("empty"))
     if same:
         c = a + b
         ctx.close(c.n, sa.n + sb.n, "n of a+b", rtol=1e-15)
